@@ -296,6 +296,7 @@ func (fc *FnCtx) instr(ins ssa.Instruction) {
 	case *ssa.Go:
 		g.note("goroutine spawn not modelled (sequential reasoning per goroutine / critical section): " + fc.posStr(ins))
 	case *ssa.Alloc:
+		g.markAlloc(x.Type())
 		r := fc.newRef()
 		fc.setVal(x, r)
 		T := x.Type().Underlying().(*types.Pointer).Elem()
@@ -351,6 +352,7 @@ func (fc *FnCtx) instr(ins ssa.Instruction) {
 	case *ssa.Slice:
 		fc.sliceOp(x)
 	case *ssa.MakeSlice:
+		g.markAlloc(x.Type())
 		r := fc.newRef()
 		n := fc.term(x.Len).t
 		c := fc.term(x.Cap).t
@@ -360,6 +362,7 @@ func (fc *FnCtx) instr(ins ssa.Instruction) {
 		g.set(fc.cur, k, fmt.Sprintf("(store %s %s ((as const (Array Int %s)) %s))", g.get(fc.cur, k), r, g.sortOf(et), g.sorts.zero(et)))
 		fc.defVal(x, fmt.Sprintf("(mkslice %s 0 %s %s)", r, n, c))
 	case *ssa.MakeMap:
+		g.markAlloc(x.Type())
 		r := fc.newRef()
 		mt := x.Type().Underlying().(*types.Map)
 		kd, kv := g.mapKeys(mt)
@@ -367,6 +370,7 @@ func (fc *FnCtx) instr(ins ssa.Instruction) {
 		_ = kv
 		fc.setVal(x, r)
 	case *ssa.MakeChan:
+		g.markAlloc(x.Type())
 		r := fc.newRef()
 		fc.setVal(x, r)
 	case *ssa.MakeClosure:
@@ -778,6 +782,10 @@ func (fc *FnCtx) typeAssert(x *ssa.TypeAssert) {
 		id := g.sorts.typeID(at)
 		okT = fmt.Sprintf("(= (itag %s) %d)", v.t, id)
 		valT = fc.unboxT(at, fmt.Sprintf("(ival %s)", v.t))
+	}
+	if isPointerLike(at) {
+		// a pointer held in an interface value refers to an already allocated object
+		fc.assume(fmt.Sprintf("(=> %s (<= (ival %s) %s))", okT, v.t, g.get(fc.cur, "$alloc")), "allocated")
 	}
 	if x.CommaOk {
 		okN := g.def(fc.name(x)+".ok", "Bool", okT)
